@@ -260,6 +260,16 @@ func emitWrite(run *hx.Run, md *raft.SnapshotMeta, snap []byte) {
 	if err := json.NewEncoder(&enc).Encode(md); err != nil {
 		panic(err)
 	}
+	// the JSON contract the round-trip theorem assumes (hcodec): decoding what Encode produced
+	// for this metadata onto a zero struct succeeds and yields the same metadata
+	{
+		var back raft.SnapshotMeta
+		p := &back
+		if uerr := json.Unmarshal(enc.Bytes(), &p); uerr != nil || !bytes.Equal(canon(&back), canon(md)) {
+			run.Violate("json:contract", fmt.Sprintf("json.Unmarshal(json.Encode(m)) != m for %s (err %v)", canon(md), uerr), nil)
+		}
+		run.Tag("json:contract-checked")
+	}
 	var buf bytes.Buffer
 	err := snapshot.VerifWrite(&buf, md, plain{bytes.NewReader(snap)})
 	out, swap := "short-snap", false
@@ -462,6 +472,17 @@ func mkBase(run *hx.Run, md *raft.SnapshotMeta, state []byte, tag string) *base 
 	if len(b.s.ms) != 3 || b.s.ms[0].name != "meta.json" || b.s.ms[1].name != "state.bin" || b.s.ms[2].name != "SHA256SUMS" {
 		run.Violate("write:unexpected-member-list", "write did not produce meta.json, state.bin, SHA256SUMS: "+viewStr(b.s), []string{opRead})
 	}
+	for _, r := range b.regs {
+		if r.kind != "hdr" {
+			continue
+		}
+		for _, c := range b.tarB[r.start : r.start+512] {
+			if c >= 128 {
+				run.Violate("assumption:tar-header-not-ascii", "write produced a header block with a byte >= 128: header_byte_change_rejected (Props/C20.lean) assumes ASCII headers", []string{opRead})
+				break
+			}
+		}
+	}
 	run.Tag("roundtrip:" + tag)
 	run.Tag(fmt.Sprintf("roundtrip:pad-state=%v", len(state)%512 != 0))
 	run.Case(opRead, true)
@@ -547,10 +568,24 @@ func checkDamaged(run sink, b *base, kind string, mustReject bool, res result, o
 // register makes b the model's current base archive (later ops refer to it: trunc, bflip,
 // `@i` member references, `^` oracle reference).
 func (b *base) register(run *hx.Run) {
-	run.Line(b.baseOp(), fmt.Sprintf("ok n=%d total=%d", len(b.s.ms), len(b.tarB)))
+	hs := make([]string, len(b.s.ms))
+	for i, m := range b.s.ms {
+		hs[i] = fmt.Sprintf("%s:%d:1", hx.EncS(m.name), len(m.data)) // what archive/tar parsed from the header
+	}
+	run.Line(b.baseOp(), fmt.Sprintf("ok n=%d total=%d hdr=%s", len(b.s.ms), len(b.tarB), hx.EncList(hs)))
 }
 
-func (b *base) baseOp() string { return "base " + encMembers(b.s.ms) + " " + oracle(b.s.ms) }
+// baseOp carries the members, the JSON oracle and the raw 512-byte header block of each member
+// (the model recomputes name, size and checksum from the block).
+func (b *base) baseOp() string {
+	var hs []string
+	for _, r := range b.regs {
+		if r.kind == "hdr" {
+			hs = append(hs, hx.EncB(b.tarB[r.start:r.start+512]))
+		}
+	}
+	return "base " + encMembers(b.s.ms) + " " + oracle(b.s.ms) + " " + hx.EncList(hs)
+}
 
 // orc is the oracle token for ms, `^` when it equals the base's.
 func (b *base) orc(ms []member) string {
@@ -636,14 +671,12 @@ func flipOne(b *base, mut []byte, pos int, v byte, reg region, corr bool, out si
 		op = fmt.Sprintf("bflip %d %d %s", pos, v, b.orc(sv.ms))
 		got = fmt.Sprintf("view=%s %s", viewStr(sv), res.String())
 		if reg.kind == "hdr" && pos-reg.start >= 148 && pos-reg.start < 156 {
-			// checksum field: still parses to the same number (archive unchanged for
-			// the reader) or not (header rejected) — both are legal, nothing else is.
-			op = fmt.Sprintf("bflip %d %d ^", pos, v)
-			pre := stream{ms: b.s.ms[:reg.idx], end: "err"}
-			a, z := fmt.Sprintf("view=%s %s", baseView, b.res.String()), fmt.Sprintf("view=%s err tar", viewStr(pre))
-			if got == a || got == z {
-				out.Tag("flip-hdr:chksum-field:" + map[bool]string{true: "same-value", false: "rejected"}[got == a])
-				got = fmt.Sprintf("chk view=%s|%s %s|err tar", baseView, viewStr(pre), b.res.String())
+			// checksum field: the stored value still parses to the same number (nothing changed
+			// for the reader) or not (header rejected); the model decides which from the block
+			if got == fmt.Sprintf("view=%s %s", baseView, b.res.String()) {
+				out.Tag("flip-hdr:chksum-field:same-value")
+			} else {
+				out.Tag("flip-hdr:chksum-field:rejected")
 			}
 		}
 	}
